@@ -203,4 +203,12 @@ theorem flatMap_range_succ_last (f : Nat → List α) (n : Nat) :
   rw [List.range_succ, List.flatMap_append]
   simp
 
+/-- R-STRFOLD: a loop that extends an accumulator by one chunk per element computes
+    acc ++ join (map chunk xs)  (strings as lists of characters) -/
+theorem foldl_append_eq_join (chunk : α → List β) (xs : List α) (acc : List β) :
+    xs.foldl (fun a x => a ++ chunk x) acc = acc ++ (xs.map chunk).flatten := by
+  induction xs generalizing acc with
+  | nil => simp
+  | cons x xs ih => simp [List.foldl_cons, ih, List.append_assoc]
+
 end Lifting
